@@ -45,7 +45,7 @@ Empty == [
     prevDispErr |-> FALSE, carried |-> {},
     opted |-> {}, bs |-> <<>>, bhe |-> <<>>, synthWanted |-> {}, synthDone |-> {},
     pa |-> NoPA, lastPeret |-> [on |-> FALSE, s |-> 0, act |-> "continue", eff |-> "continue"],
-    idle |-> <<>>, idleOrder |-> <<>>, idlePhase |-> FALSE, idleRanNow |-> {}, cbTargets |-> {},
+    idle |-> <<>>, idleOrder |-> <<>>, idlePhase |-> FALSE, idleRanNow |-> {}, cbTargets |-> {}, appliedNow |-> FALSE,
     dropSrc |-> <<>>, dropCb |-> <<>>, cbMade |-> <<>>, held |-> <<>>, recovered |-> <<>>,
     opStack |-> <<>>, regErrSeen |-> FALSE, faultSeen |-> FALSE, c16off |-> FALSE,
     peSynth |-> FALSE, cmpSnap |-> FALSE, lastSnap |-> NoSnap,
@@ -209,7 +209,7 @@ UpdOp(sh, ev) ==
                          !.synthSeen = FALSE, !.pendingAtWait = {}, !.touched = {}, !.fired = {}, !.shifted = {},
                          !.lastTimerDl = -2000000000, !.opted = Opted(sh),
                          !.bs = [s \in sh.S |-> 0], !.bhe = [s \in sh.S |-> 0],
-                         !.synthWanted = {}, !.synthDone = {}, !.idlePhase = FALSE, !.idleRanNow = {}, !.cbTargets = {},
+                         !.synthWanted = {}, !.synthDone = {}, !.idlePhase = FALSE, !.idleRanNow = {}, !.cbTargets = {}, !.appliedNow = FALSE,
                          !.deadBefore = {<<sh.tokens[i].id, sh.tokens[i].ver>> : i \in {j \in DOMAIN sh.tokens : ~LiveTok(sh, j)}}
                                          \ {<<sh.tokens[i].id, sh.tokens[i].ver>> : i \in {j \in DOMAIN sh.tokens : LiveTok(sh, j)}}]
        [] OTHER -> base
@@ -373,6 +373,7 @@ Upd(sh, ev) ==
          THEN [sh EXCEPT !.pa = [on |-> TRUE, s |-> sh.lastPeret.s,
                                  eff |-> ev.act, reregs |-> 0, unregs |-> 0,
                                  gone |-> sh.life[sh.lastPeret.s] = "out"],
+                         !.appliedNow = @ \/ ev.act # "continue",
                          !.lastPeret.on = FALSE]
          ELSE sh
     [] ev.e \in {"reg", "rereg", "unreg"} -> UpdProbeCall(sh, ev)
@@ -486,6 +487,9 @@ ViolApply(sh, ev) ==
              {<<"C09", "explicit_action_not_applied">>})
           \cup If(sh.lastPeret.act = "continue" /\ ev.act # sh.lastPeret.eff,
                   {<<"C09", "deferred_request_not_applied_to_requester">>})
+          \* a source that neither returned nor requested Disable is disabled: somebody else's disable reached it
+          \cup If(sh.lastPeret.act = "continue" /\ sh.lastPeret.eff # "disable" /\ ev.act = "disable",
+                  {<<"C07", "disable_disturbed_other_source">>})
           \cup If(Tok2(ev.key) # KeyOf(sh, s) /\ sh.life[s] = "in", {<<"C09", "applied_to_other_registration">>})
 
 \* called on the event that ends the window of a post action (next lookup / end of dispatch)
@@ -602,7 +606,9 @@ ViolSnap(sh, ev) ==
   If(ev.pending # "continue", {<<"C09", "post_action_carried_over">>})
   \cup If(LifeSetOf(ev) # {KeyOf(sh, s) : s \in Opted(sh)} /\ ~(\E s \in sh.S : sh.fuzzy[s]),
           {<<"C14", "lifecycle_set_wrong">>} \cup If(sh.faultSeen, {<<"C15", "bookkeeping_leak_after_fault">>})
-          \cup If(sh.cbTargets # {} /\ ~sh.faultSeen, {<<"C08", "in_callback_operation_effect_differs">>}))
+          \cup If(sh.cbTargets # {} /\ ~sh.faultSeen, {<<"C08", "in_callback_operation_effect_differs">>})
+          \* a Disable / Remove / Reregister was applied in this dispatch and the loop's books are wrong afterwards
+          \cup If(sh.appliedNow /\ ~sh.faultSeen, {<<"C09", "post_action_half_applied">>}))
   \cup If(Len(ev.life) # Cardinality(LifeSetOf(ev)), {<<"C14", "lifecycle_set_duplicates">>})
   \cup If(Cardinality({i \in DOMAIN ev.slots : ev.slots[i][3] = 1}) # Cardinality({s \in sh.S : sh.life[s] = "in"}),
           {<<"C06", "occupied_slots_mismatch">>} \cup If(sh.faultSeen, {<<"C15", "slot_leak_after_fault">>}))
